@@ -93,6 +93,10 @@ example : callerResult Skeleton.current idCodec none 1 false 9
 theorem C09_results_pass_through_utils_call :
     Skeleton.current.ucResultsUntouched = true := by decide
 
+/-- Every argument of a closure invocation goes through `convertValue` (which maps the untyped nil a `null` decodes to onto the zero value of the declared type); no fast path skips it (checked against the regenerated skeleton). -/
+theorem C09_closure_arguments_all_converted :
+    Skeleton.current.clConvertsEveryArg = true ∧ Skeleton.current.cvHandlesInvalid = true := by decide
+
 end Panrpc.Wire
 
 #print axioms Panrpc.Wire.C09_args_in_order
@@ -100,3 +104,4 @@ end Panrpc.Wire
 #print axioms Panrpc.Wire.C09_ctx_not_transmitted
 #print axioms Panrpc.Wire.C09_result_roundtrip
 #print axioms Panrpc.Wire.C09_results_pass_through_utils_call
+#print axioms Panrpc.Wire.C09_closure_arguments_all_converted
